@@ -138,7 +138,7 @@ var c06LargeSizes = []int{255, 256, 257, 300, 1023, 1024, 1025, 1100}
 
 func c06Counts(tier string) (static, realtime int) {
 	if tier == "thorough" {
-		return 800, 1000
+		return 500, 640
 	}
 	return 120, 220
 }
